@@ -52,7 +52,10 @@ TRUSTED = ['z3 quantifier instantiation']
 
 
 def tasks(tier):
-    return ['refresh', 'bin', 'walk', 'copy', 'apply', 'canary']
+    # Solver.reorder_particles (re-order every array, then update the
+    # neighbour structures) is contracted in C05: re-proved here
+    return ['refresh', 'bin', 'walk', 'copy', 'apply', 'canary',
+            'dep:C05:reorder']
 
 
 def carr(name, length=None, elem='int'):
@@ -94,6 +97,9 @@ def range_obs(ex, fn, ordinal, state, stop, name, W):
 
 
 def run_task(task, ctx):
+    if task.startswith('dep:'):
+        from contracts import deps
+        return deps.run_dep(task, ctx)
     repo = Repo()
     if task == 'refresh':
         return task_refresh(ctx, repo)
@@ -154,6 +160,26 @@ if bad is None:
     if (tag[:nr] != 0).any():
         bad = dict(problem='ghost particles inside the first num_real_particles slots after re-ordering',
                    tags=tag.tolist(), num_real_particles=int(nr))
+if bad is None:
+    # ghosts of a mirror domain and Remote-tagged particles must stay behind
+    # the real ones as well
+    x = np.arange(0.05, 1.0, 0.1)
+    pa = get_particle_array(name='p', x=x, h=0.1)
+    dm = nnps.DomainManager(xmin=0, xmax=1, mirror_in_x=True)
+    nn = nnps.LinkedListNNPS(dim=1, particles=[pa], domain=dm)
+    nn.spatially_order_particles(0)
+    tag = pa.get('tag', only_real_particles=False); nr = pa.num_real_particles
+    if (tag[:nr] != 0).any():
+        bad = dict(problem='mirror ghosts inside the first num_real_particles slots after re-ordering', tags=tag.tolist(), num_real_particles=int(nr))
+if bad is None:
+    pa = get_particle_array(name='p', x=np.linspace(0, 1, 12), h=0.1)
+    pa.tag[8:] = 1
+    pa.align_particles()
+    nn = nnps.LinkedListNNPS(dim=1, particles=[pa])
+    nn.spatially_order_particles(0)
+    tag = pa.get('tag', only_real_particles=False); nr = pa.num_real_particles
+    if nr != 8 or (tag[:nr] != 0).any():
+        bad = dict(problem='Remote particles inside the first num_real_particles slots after re-ordering', tags=tag.tolist(), num_real_particles=int(nr))
 print(json.dumps(dict(bad=bad)))
 '''
 
@@ -484,7 +510,11 @@ def task_apply(ctx, repo):
         get_number_of_particles=Native(lambda e, s_, a, k, n: NP)),
         'pa')
     paw = SymObject(None, dict(pa=pa), 'paw')
-    obj = SymObject('NNPS', dict(pa_wrappers=[paw]), 'self')
+    # any state of the search object (periodic or not, cache or not ...)
+    obj = SymObject('NNPS', dict(pa_wrappers=[paw],
+                                 is_periodic=z3.Bool('is_periodic'),
+                                 use_cache=z3.Bool('use_cache'),
+                                 narrays=1), 'self')
     obj.module = m
     ex = Executor(repo, m, qualname='NNPS.spatially_order_particles',
                   merge=False, prune=True, contracts={
